@@ -555,6 +555,7 @@ class Extract:
         self.after = []
         self.closures = {}
         self.closure_expect = {}
+        self.loop_expect = {}
         self.lift = None
         self.lift_async = None
         self.lifted_contract = []
@@ -643,6 +644,8 @@ def parse_template(path):
                 cur.maps.append((a.strip(), b.strip(), why.strip()))
             elif key == 'contract':
                 target = cur.contract
+            elif key.startswith('loop-expect '):
+                cur.loop_expect[int(key[len('loop-expect '):])] = val.strip()
             elif key.startswith('loop '):
                 rest = key[len('loop '):].strip()
                 if rest.endswith(' iter'):
@@ -862,6 +865,31 @@ def render_extract(ex, vac=False, strip_proof=False):
                         assign[kidx - 1] = ex.closures[kidx] + (kidx,)
                 continue
             cands = [i for i, h in enumerate(headers) if h == exp]
+            if not cands:
+                # the closure parameters may have been renamed: fall back to the ordinal closure if it has the same
+                # number of plain-identifier parameters, and rename the parameters in the annotation accordingly
+                exp_params = [x.strip() for x in exp.strip('|').split(',') if x.strip()]
+                ok_all = True
+                renamed = {}
+                for kidx in ks:
+                    if not (1 <= kidx <= len(cl)):
+                        ok_all = False
+                        break
+                    new_params = [x.strip() for x in headers[kidx - 1].strip('|').split(',') if x.strip()]
+                    if len(new_params) != len(exp_params) or not all(re.match(r'^[A-Za-z_][A-Za-z0-9_]*$', x) for x in new_params + exp_params):
+                        ok_all = False
+                        break
+                    hdr, lines = ex.closures[kidx]
+                    for a_, b_ in zip(exp_params, new_params):
+                        if a_ != b_:
+                            hdr = re.sub(r'\b%s\b' % re.escape(a_), b_, hdr)
+                            lines = [re.sub(r'\b%s\b' % re.escape(a_), b_, l) for l in lines]
+                    renamed[kidx] = (hdr, lines)
+                if ok_all:
+                    for kidx in ks:
+                        assign[kidx - 1] = renamed[kidx] + (kidx,)
+                        log.append({'rule': 'R7', 'closure': kidx, 'note': 'parameters renamed in the source; annotation renamed accordingly', 'expected': exp, 'found': headers[kidx - 1]})
+                    continue
             same = len(set((ex.closures[k][0], tuple(ex.closures[k][1])) for k in ks)) == 1
             if same:
                 # every closure with this header carries the same annotation: annotate all of them
@@ -893,6 +921,10 @@ def render_extract(ex, vac=False, strip_proof=False):
         for kidx, lines in ex.loops.items():
             if kidx < 1 or kidx > len(lp):
                 degraded.append('loop %d not found (%d loops)' % (kidx, len(lp)))
+                continue
+            if kidx in ex.loop_expect and toks[lp[kidx - 1]][1] != ex.loop_expect[kidx]:
+                # the loop was restructured (e.g. `while` -> `loop { if .. break }`): the invariant no longer fits
+                degraded.append('loop %d is now a `%s` loop (annotated as `%s`)' % (kidx, toks[lp[kidx - 1]][1], ex.loop_expect[kidx]))
                 continue
             bo = loop_body_open(toks, lp[kidx - 1])
             edits.append((toks[bo][2], toks[bo][2], '\n' + '\n'.join(lines) + '\n        '))
